@@ -153,7 +153,7 @@ def gen_registry(rng, n_classes=None, n_methods=None, shapes=None, max_defs=6, a
 def make_ids(rng, n, policy, family=None):
     """type ids for n classes under a policy; returns list of id lists (aliases) per class"""
     if policy in ("plain",):
-        base = rng.randint(1, 50)
+        base = rng.randint(0, 50)
         ids = rng.sample(range(base, base + 4 * n + 8), n)
         return [[i] for i in ids]
     if policy == "proj":
@@ -173,7 +173,7 @@ def make_ids(rng, n, policy, family=None):
         stride = rng.choice([1, 2, 8, 24, 64, 4096])
         return [[base + stride * i] for i in range(n)]
     if fam == "small":
-        ids = rng.sample(range(1, 8 * n + 8), n)
+        ids = rng.sample(range(0, 8 * n + 8), n)
         return [[i] for i in ids]
     if fam == "highbits":
         low = rng.randrange(1 << 20)
